@@ -387,22 +387,36 @@ func (ProgressOracle) AfterCycle(r *Run, cycle int, all []Decision) {
 			}
 		}
 	}
-	// preempt inside a queue: exactly one pending workload, strictly lower-priority preemptible running workloads in its own queue
-	if hasAction("preempt") && len(pending) == 1 {
-		g := pending[0]
-		victims := 0
-		for _, og := range pre.Groups {
-			if og.Queue == g.Queue && og != g && og.Pods[0].Active && og.Preemptible && og.Priority < g.Priority {
-				victims++
-			}
+	// preempt inside a queue: a pending workload with strictly lower-priority preemptible running workloads in its own
+	// queue. With several pending workloads every other one can take at most one of those victims away (all workloads
+	// are single pods of one shape: one reclaim or preempt eviction each), so the workload is judged only if at least as
+	// many victims as pending workloads exist; the queue's limit must leave room for all pending workloads of the queue.
+	if hasAction("preempt") && len(pending) >= 1 {
+		pendingInQueue := map[string]float64{}
+		for _, g := range pending {
+			pendingInQueue[g.Queue] += float64(shape.GPUs)
 		}
-		q := pre.Queues[g.Queue]
-		limOK := q != nil && (q.GPU.Limit < 0 || start[g.Queue] <= q.GPU.Limit)
-		quotaOK := g.Preemptible
-		if victims > 0 && limOK && quotaOK {
-			r.Probe("c05_unobstructed_preempt_judged")
-			if !placedAny[g.Name] {
-				r.Fail("C05", "unobstructed_preempt_missing", "cycle %d: workload %s (priority %d) of queue %s obtained nothing although %d strictly lower-priority preemptible workloads of its own queue are running", cycle, g.Name, g.Priority, g.Queue, victims)
+		for _, g := range pending {
+			victims := 0
+			for _, og := range pre.Groups {
+				if og.Queue == g.Queue && og != g && og.Pods[0].Active && og.Preemptible && og.Priority < g.Priority {
+					victims++
+				}
+			}
+			q := pre.Queues[g.Queue]
+			limOK := q != nil && (q.GPU.Limit < 0 || start[g.Queue]+pendingInQueue[g.Queue]-float64(shape.GPUs) <= q.GPU.Limit)
+			if len(pending) == 1 {
+				limOK = q != nil && (q.GPU.Limit < 0 || start[g.Queue] <= q.GPU.Limit)
+			}
+			quotaOK := g.Preemptible
+			if victims >= len(pending) && limOK && quotaOK {
+				r.Probe("c05_unobstructed_preempt_judged")
+				if len(pending) > 1 {
+					r.Probe("c05_unobstructed_preempt_judged_with_competitors")
+				}
+				if !placedAny[g.Name] {
+					r.Fail("C05", "unobstructed_preempt_missing", "cycle %d: workload %s (priority %d) of queue %s obtained nothing although %d strictly lower-priority preemptible workloads of its own queue are running (%d pending workloads in total)", cycle, g.Name, g.Priority, g.Queue, victims, len(pending))
+				}
 			}
 		}
 	}
